@@ -32,6 +32,32 @@ def scenarios(quick: bool) -> list[tuple[dict, int]]:
             for mode in (False, None, True):
                 p = {"qos_mode": mode, "callers": [caller("rq30c9_01", retries=retries, timeout=to)], "env": {"echo": False, "reply": False}, "dev": (), "probe": False}
                 sc.append((p, 0))
+    # two commands with different budgets queued together, nothing comes back: each gets exactly its own budget
+    for ra in range(0, 6):
+        for rb in range(0, 6):
+            for pa, pb in (("DEFAULT", "DEFAULT"), ("LOW", "HIGH")):
+                p = {
+                    "qos_mode": False,
+                    "callers": [caller("rq30c9_01", retries=ra, prio=pa), caller("rq30c9_02", retries=rb, prio=pb)],
+                    "env": {"echo": False, "reply": False},
+                    "dev": (),
+                    "probe": False,
+                }
+                sc.append((p, 0))
+    for ra, rb in ((3, 0), (0, 3), (1, 5), (5, 1)):
+        p = {"qos_mode": False, "callers": [caller("rq30c9_01", retries=ra), caller("rq30c9_02", retries=rb), caller("w2309_03", retries=ra)], "dev": ("drop",), "probe": False}
+        sc.append((p, 3 if quick else 5))
+    # one command in flight (nothing answers: 7.5 s), three queued with every priority assignment, one of which gives up while queued
+    for prios in itertools.product(PRIOS, repeat=3):
+        for short in range(3):
+            p = {
+                "qos_mode": False,
+                "callers": [caller("rq30c9_01")] + [caller(f"rq30c9_0{i+2}", prio=pr, timeout=0.25 if i == short else 20.0) for i, pr in enumerate(prios)],
+                "env": {"echo": False, "reply": False},
+                "dev": (),
+                "probe": False,
+            }
+            sc.append((p, 0))
     # N queued commands: all priority assignments, N <= 4 (quick: N <= 3 + a slice of 4)
     for n in (2, 3, 4):
         for prios in itertools.product(PRIOS, repeat=n):
